@@ -185,6 +185,13 @@ func (rl *Shell) viRegistersComplete() {
 func (rl *Shell) menuIncrementalSearch() {
 	rl.History.SkipSave()
 
+	// A candidate selected in the menu is only virtually inserted: drop it,
+	// or the completions would be regenerated from the completed line while
+	// their prefix is then removed from the real one.
+	if rl.completer.IsInserting() {
+		rl.completer.Cancel(true, false)
+	}
+
 	// Always regenerate the list of completions.
 	rl.completer.GenerateWith(rl.commandCompletion)
 	rl.completer.IsearchStart("completions", false, false)
